@@ -224,7 +224,7 @@ func (r *runner) sortCase(class string, seq []vm) {
 			counts[id]++
 		}
 		detail["output"] = driver.Truncate(safeStr(out), 1200)
-		if c.WantSample() && n >= 3 && n <= 8 && ties {
+		if n >= 3 && n <= 8 && ties && r.wantSample("sort") {
 			c.Sample(map[string]any{"phase": "sort", "call": vname, "xs": seqStr(seq), "result": driver.Truncate(safeStr(out), 400)})
 		}
 		if exact {
